@@ -9,6 +9,8 @@ import base64, hashlib, hmac, json, os, struct, sys, traceback, zlib
 # ---------------------------------------------------------------------------
 KEYS_JSON = json.load(open(os.path.join(os.path.dirname(os.path.abspath(__file__)), "c16_keys.json")))
 
+KEYS_JSON.setdefault("oct24", {"kty": "oct", "k": base64.urlsafe_b64encode(bytes(range(24))).rstrip(b"=").decode(), "kid": "oct24"})
+KEYS_JSON.setdefault("oct48", {"kty": "oct", "k": base64.urlsafe_b64encode(bytes(range(48))).rstrip(b"=").decode(), "kid": "oct48"})
 KEY_NAMES = ["oct16", "oct32", "oct64", "rsa", "ec256", "ec384", "ec521", "ed25519", "ed448", "x25519", "x448",
              "ec256k", "ec256b", "x25519b", "x448b"]
 SET_NAMES = ["set:all", "set:oct16", "set:empty", "set:nokid2"]
@@ -66,6 +68,9 @@ def keys():
     from joserfc.jwk import JWKRegistry, KeySet
     for n in KEY_NAMES:
         _keys_cache[n] = JWKRegistry.import_key(dict(KEYS_JSON[n]))
+    from joserfc.jwk import OctKey
+    _keys_cache["oct24"] = OctKey.import_key({"kty": "oct", "k": b64u(bytes(range(24))), "kid": "oct24"})
+    _keys_cache["oct48"] = OctKey.import_key({"kty": "oct", "k": b64u(bytes(range(48))), "kid": "oct48"})
     _keys_cache["set:all"] = KeySet([JWKRegistry.import_key(dict(KEYS_JSON[n])) for n in KEY_NAMES])
     _keys_cache["set:oct16"] = KeySet([JWKRegistry.import_key(dict(KEYS_JSON["oct16"]))])
     _keys_cache["set:empty"] = KeySet([])
@@ -1035,6 +1040,7 @@ def all_calls(rng, quick=True):
     calls += stream3(rng, quick)
     calls += stream_keys(rng, quick)
     calls += stream_deep(rng, quick)
+    calls += stream_boundaries(rng, quick)
     lib_calls, cov = stream_library(rng, quick)
     calls += lib_calls
     LAST_COVERAGE.clear(); LAST_COVERAGE.update(cov)
@@ -1440,4 +1446,161 @@ def stream_deep(rng, quick=True):
             for hdr, body in (({"alg": "dir", "enc": "A128GCM"}, nt),):
                 calls.append(("jwt.decode/jwe", jwe_dir_compact(hdr, body, "A128GCM", "oct16"), "oct16", "all", "deep/compact"))
             calls.append(("jwt.decode/jws", jws_compact({"alg": "HS256"}, b'{"a":' + nt + b"}", "HS256", "oct32"), "oct32", "all", "deep/compact"))
+    return calls
+
+
+
+# ---------------------------------------------------------------------------
+# wave 3: boundaries of the content-encryption and key-management layers under GENUINE tags
+# ---------------------------------------------------------------------------
+def oct_raw(name):
+    return bytes(range(24)) if name == "oct24" else bytes(range(48)) if name == "oct48" else b64u_dec(KEYS_JSON[name]["k"])
+
+
+def cbc_raw_encrypt(ekey, iv, blocks):
+    """AES-CBC of whole blocks WITHOUT padding: the decryption of the result is exactly `blocks`"""
+    from cryptography.hazmat.primitives.ciphers import Cipher, algorithms, modes
+    e = Cipher(algorithms.AES(ekey), modes.CBC(iv)).encryptor()
+    return e.update(blocks) + e.finalize()
+
+
+def cbc_tag(cek, aad, iv, ct):
+    n = len(cek) // 2
+    hname = {16: "sha256", 24: "sha384", 32: "sha512"}[n]
+    return hmac.new(cek[:n], aad + iv + ct + struct.pack(">Q", len(aad) * 8), getattr(hashlib, hname)).digest()[:n]
+
+
+def cbc_ciphertexts(rng, ekey, iv):
+    """(label, ciphertext) : every boundary of the unpadding step; the tag is computed by the caller"""
+    out = [("ct-len-0", b"")]
+    for n in (1, 2, 7, 8, 15, 17, 31, 33):
+        out.append(("ct-len-%d" % n, bytes(rng.randrange(256) for _ in range(n))))
+    body = bytes(range(1, 16))
+    for v in (0x00, 0x01, 0x02, 0x0f, 0x10, 0x11, 0x20, 0x80, 0xff):
+        out.append(("last-octet-%02x" % v, cbc_raw_encrypt(ekey, iv, body + bytes([v]))))
+    out.append(("pad-3-corrupt", cbc_raw_encrypt(ekey, iv, bytes(13) + bytes([3, 2, 3]))))
+    out.append(("pad-3-ok", cbc_raw_encrypt(ekey, iv, b'{"a":1}      ' + bytes([3, 3, 3]))))
+    out.append(("pad-16-all", cbc_raw_encrypt(ekey, iv, bytes([16]) * 16)))
+    out.append(("pad-16-corrupt", cbc_raw_encrypt(ekey, iv, bytes([16]) * 7 + bytes([15]) + bytes([16]) * 8)))
+    out.append(("len-32-fullpad", cbc_raw_encrypt(ekey, iv, b'{"iss":"abcdef"}' + bytes([16]) * 16)))
+    out.append(("len-32-pad-17", cbc_raw_encrypt(ekey, iv, bytes(15) + bytes([17]) * 17)))
+    out.append(("len-48", cbc_raw_encrypt(ekey, iv, b'{"iss":"abcdef","sub":"0123456789abcdefghij"}' + bytes([3]) * 3)))
+    out.append(("len-48-zero", cbc_raw_encrypt(ekey, iv, bytes(48))))
+    return out
+
+
+def ecdh_es_cek(enc, bits, recipient, apu=b"", apv=b""):
+    """own ECDH-ES (direct) composer: ephemeral key, pyca exchange, Concat KDF -> (epk JWK, cek)"""
+    from cryptography.hazmat.primitives.asymmetric import ec, x25519
+    from cryptography.hazmat.primitives import hashes
+    from cryptography.hazmat.primitives.kdf.concatkdf import ConcatKDFHash
+    j = KEYS_JSON[recipient]
+    u32 = lambda b: struct.pack(">I", len(b)) + b
+    if j["kty"] == "EC":
+        pub = ec.EllipticCurvePublicNumbers(int.from_bytes(b64u_dec(j["x"]), "big"), int.from_bytes(b64u_dec(j["y"]), "big"), ec.SECP256R1()).public_key()
+        eph = ec.generate_private_key(ec.SECP256R1())
+        shared = eph.exchange(ec.ECDH(), pub)
+        n = eph.public_key().public_numbers()
+        epk = {"kty": "EC", "crv": "P-256", "x": b64u(n.x.to_bytes(32, "big")), "y": b64u(n.y.to_bytes(32, "big"))}
+    else:
+        from cryptography.hazmat.primitives import serialization
+        pub = x25519.X25519PublicKey.from_public_bytes(b64u_dec(j["x"]))
+        eph = x25519.X25519PrivateKey.generate()
+        shared = eph.exchange(pub)
+        epk = {"kty": "OKP", "crv": "X25519", "x": b64u(eph.public_key().public_bytes(serialization.Encoding.Raw, serialization.PublicFormat.Raw))}
+    info = u32(enc.encode()) + u32(apu) + u32(apv) + struct.pack(">I", bits)
+    cek = ConcatKDFHash(hashes.SHA256(), bits // 8, info).derive(shared)
+    return epk, cek
+
+
+def rsa_oaep_wrap(cek):
+    from cryptography.hazmat.primitives.asymmetric import padding
+    from cryptography.hazmat.primitives import hashes
+    return priv("rsa").public_key().encrypt(cek, padding.OAEP(padding.MGF1(hashes.SHA1()), hashes.SHA1(), None))
+
+
+def stream_boundaries(rng, quick=True):
+    calls = []
+    from joserfc import jwe
+    ks = keys()
+    # --- CBC-HS: genuine tag over every boundary ciphertext ; dir, RSA-OAEP and ECDH-ES recipients
+    for enc, n, dirkey in (("A128CBC-HS256", 32, "oct32"), ("A192CBC-HS384", 48, "oct48"), ("A256CBC-HS512", 64, "oct64")):
+        recips = [("dir", dirkey, oct_raw(dirkey), {"alg": "dir", "enc": enc, "kid": dirkey}, b"")]
+        cek = bytes(rng.randrange(256) for _ in range(n))
+        recips.append(("RSA-OAEP", "rsa", cek, {"alg": "RSA-OAEP", "enc": enc, "kid": "rsa"}, rsa_oaep_wrap(cek)))
+        for rk in ("ec256", "x25519"):
+            epk, cek2 = ecdh_es_cek(enc, n * 8, rk)
+            recips.append(("ECDH-ES", rk, cek2, {"alg": "ECDH-ES", "enc": enc, "epk": epk, "kid": rk}, b""))
+        for alg, kn, cek_, hdr, ek in recips:
+            iv = bytes(range(16))
+            hs = b64u(jdump(hdr))
+            for label, ct in cbc_ciphertexts(rng, cek_[n // 2:], iv):
+                for aadlabel, aad in (("", None), ("+aad", b"x" * 7)):
+                    a = hs.encode() if aad is None else hs.encode() + b"." + b64u(aad).encode()
+                    tag = cbc_tag(cek_, a, iv, ct)
+                    t = "bnd/cbc/%s%s" % (label, aadlabel)
+                    if aad is None:
+                        tok = ".".join([hs, b64u(ek), b64u(iv), b64u(ct), b64u(tag)])
+                        for e in ("jwe.decrypt_compact", "jwt.decode/jwe"):
+                            for k in (kn, "set:all"):
+                                calls.append((e, tok, k, "all", t))
+                    d = {"protected": hs, "iv": b64u(iv), "ciphertext": b64u(ct), "tag": b64u(tag)}
+                    if ek:
+                        d["encrypted_key"] = b64u(ek)
+                    if aad is not None:
+                        d["aad"] = b64u(aad)
+                    calls.append(("jwe.decrypt_json", d, kn, "all", t))
+                    calls.append(("jwe.decrypt_json", {k: v for k, v in d.items() if k != "encrypted_key"} | {"recipients": [{"encrypted_key": b64u(ek)} if ek else {}]},
+                                  kn, "all", t))
+    # --- GCM / ChaCha: empty ciphertext with a genuine tag, huge AAD
+    for enc in ("A128GCM", "A192GCM", "A256GCM", "C20P", "XC20P"):
+        kn = {16: "oct16", 24: "oct24", 32: "oct32"}[ENC_CEK[enc]]
+        for label, pt, aad in (("empty-ct", b"", None), ("empty-ct+aad", b"", b"a"), ("huge-aad", b'{"a":1}', b"A" * 100000), ("one-octet", b"x", None)):
+            t = "bnd/aead/%s/%s" % (enc, label)
+            if aad is None:
+                tok = jwe_dir_compact({"alg": "dir", "enc": enc}, pt, enc, kn)
+                for e in ("jwe.decrypt_compact", "jwt.decode/jwe"):
+                    calls.append((e, tok, kn, "all", t))
+            d = jwe_dir_json({"alg": "dir", "enc": enc}, pt, enc, kn, aad=aad)
+            calls.append(("jwe.decrypt_json", d, kn, "all", t))
+    # --- key wrapping / key encryption: encrypted_key lengths
+    for alg, kn in (("A128KW", "oct16"), ("A192KW", "oct24"), ("A256KW", "oct32"), ("RSA-OAEP", "rsa"), ("RSA1_5", "rsa"), ("RSA-OAEP-256", "rsa"),
+                    ("ECDH-ES+A128KW", "ec256"), ("ECDH-ES+A256KW", "x25519"), ("PBES2-HS256+A128KW", "oct16"), ("A128GCMKW", "oct16")):
+        h = {"alg": alg, "enc": "A128CBC-HS256"}
+        if alg.startswith("PBES2"):
+            h["p2c"] = 8
+        tok = jwe.encrypt_compact(h, b'{"a":1}', ks[kn], algorithms=JWE_ALL)
+        hs, ek, iv, ct, tg = tok.split(".")
+        for n in (0, 1, 8, 16, 23, 24, 25, 32, 39, 40, 41, 48, 255, 256, 257):
+            t = "bnd/ek/%s/len-%d" % (alg, n)
+            for fill in (bytes(n), bytes(rng.randrange(256) for _ in range(n)), b64u_dec(ek)[:n].ljust(n, b"\xa6")):
+                t2 = ".".join([hs, b64u(fill), iv, ct, tg])
+                calls.append(("jwe.decrypt_compact", t2, kn, "all", t))
+                calls.append(("jwe.decrypt_json", {"protected": hs, "iv": iv, "ciphertext": ct, "tag": tg, "encrypted_key": b64u(fill)}, kn, "all", t))
+    # --- PBES2: salt input empty / one octet ; ECDH: apu / apv empty, one octet, 10^5 octets (all genuine, produced by the library)
+    for p2s in ("", "AQ", "AA", b64u(b"s" * 16)):
+        for alg in ("PBES2-HS256+A128KW", "PBES2-HS512+A256KW"):
+            kn = "oct16"
+            try:
+                tok = jwe.encrypt_compact({"alg": alg, "enc": "A128GCM", "p2s": p2s, "p2c": 4}, b'{"a":1}', ks[kn], algorithms=JWE_ALL)
+            except Exception:  # noqa
+                continue
+            for e in ("jwe.decrypt_compact", "jwt.decode/jwe"):
+                calls.append((e, tok, kn, "all", "bnd/p2s/len-%d" % len(b64u_dec(p2s))))
+    for alg, enc in (("ECDH-ES", "A128GCM"), ("ECDH-ES+A128KW", "A128CBC-HS256"), ("ECDH-1PU", "A256GCM")):
+        for rk, sk in (("ec256", "ec256b"), ("x25519", "x25519b")):
+            for un in (0, 1, 100000):
+                for vn in (0, 1, 100000):
+                    if quick and un == 100000 and vn == 100000 and rk != "ec256":
+                        continue
+                    h = {"alg": alg, "enc": enc, "apu": b64u(b"u" * un), "apv": b64u(b"v" * vn)}
+                    kw = {"sender_key": ks[sk]} if "1PU" in alg else {}
+                    try:
+                        tok = jwe.encrypt_compact(h, b'{"a":1}', ks[rk], algorithms=JWE_ALL, **kw)
+                    except Exception:  # noqa
+                        continue
+                    kname = rk + ("+s:" + sk if "1PU" in alg else "")
+                    calls.append(("jwe.decrypt_compact", tok, kname, "all", "bnd/apuv/%s/%d-%d" % (alg, un, vn)))
+                    if "1PU" not in alg:
+                        calls.append(("jwt.decode/jwe", tok, kname, "all", "bnd/apuv/%s/%d-%d" % (alg, un, vn)))
     return calls
